@@ -1,6 +1,7 @@
 import csv
 import io
 import logging
+import re
 
 from tola.assembly.assembly import Assembly
 from tola.assembly.scaffold import Scaffold
@@ -111,6 +112,11 @@ class AssemblyStats:
                 orig = scffld.original_name
                 if last_orig and orig == last_orig:
                     localised = "no"
+                elif chr_unloc := re.fullmatch(r"(.+)_unloc_\d+", name):
+                    # Chromosome where every piece is an Unloc
+                    localised = "no"
+                    chr_name = chr_unloc.group(1).replace(prefix, "", 1)
+                    last_orig = orig
                 else:
                     localised = "yes"
                     chr_name = name.replace(prefix, "", 1)
@@ -151,6 +157,11 @@ class AssemblyStats:
                     if last_orig and orig == last_orig:
                         # Unlocs share the same original_name
                         localised = "false"
+                    elif chr_unloc := re.fullmatch(r"(.+)_unloc_\d+", name):
+                        # Chromosome where every piece is an Unloc
+                        localised = "false"
+                        last_orig = orig
+                        chr_name = chr_unloc.group(1).replace(prefix, "", 1)
                     else:
                         localised = "true"
                         last_orig = orig
